@@ -353,7 +353,7 @@ def _equities(chk, ctx, mi) -> None:
            got=[stmt_text(c.value) for c in cnt] or 'no Counter over the hole cards of the selection chained with the board', want=T.show(want))
     chk.ob('C18.sampling', 'analysis.calculate_equities:unused_deck', len(deck) == 1, ce.loc,
            'cards are sampled from the deck minus every card already in a hand or on the board', got=[T.show(d) for d in deck])
-    norm = ctx.m.assigns(ce.node, 'equity / sample_count')
+    norm = ctx.m.assigns(ce.node, 'equity / sample_count') or ctx.m.exprs(ce.node, '[equity / sample_count for equity in equities]')
     chk.ob('C18.shares', 'analysis.calculate_equities:mean', len(norm) == 1, ce.loc, 'an equity is the mean share over the samples')
     hs = mi.functions.get('calculate_hand_strength')
     def _last_equity(v):
@@ -380,6 +380,10 @@ def _icm(chk, ctx, mi) -> None:
         raise AnalysisError('analysis.calculate_icm vanished')
     m = ctx.m
     loops = m.fors(fi.node, 'permutations(range(len(chips)), len(payouts))')
+    # (the number of players may be given a name of its own)
+    n_names = [a.targets[0].id for a in m.assigns(fi.node, 'len(chips)') if isinstance(a.targets[0], ast.Name)]
+    if not loops and len(n_names) == 1:
+        loops = m.fors(fi.node, f'permutations(range({n_names[0]}), len(payouts))')
     facts = {
         'chip shares': bool(m.assigns(fi.node, '[chip / chip_sum for chip in chips]')) and bool(m.assigns(fi.node, 'sum(chips)')),
         'finishing orders': len(loops) == 1,
@@ -407,7 +411,7 @@ def _icm(chk, ctx, mi) -> None:
         all(isinstance(n, ast.Assign) and T.norm(n.value) == T.spec('tuple(chips)') for n in binds) and len(binds) <= 1 \
         and len(rets) == 1 and rets[0].value is not None and any(
             isinstance(a.targets[0], ast.Name) and T.norm(rets[0].value) == ('call', 'tuple', (('name', a.targets[0].id),), ())
-            for a in m.assigns(fi.node, '[0.0] * len(chips)'))
+            for a in (m.assigns(fi.node, '[0.0] * len(chips)') or (m.assigns(fi.node, f'[0.0] * {n_names[0]}') if len(n_names) == 1 else [])))
     missing = [k for k, v in facts.items() if not v]
     chk.ob('C18.icm', 'analysis.calculate_icm', not missing, fi.loc,
            'Malmuth-Harville: P(order) = prod chips_i / (chips not yet placed); each player gets payout_k * P for finishing k-th; '
